@@ -249,6 +249,11 @@ def run(tier):
                 det["restored_on_every_path"] = restored
                 # the stack itself is PAIRED
                 paired = ftab.get(stack, {}).get("class") == "PAIRED"
+                late = restore_is_final(F, owner, nm, rs, set(rws), wk)
+                det["written_again_after_the_restore"] = late
+                rep.check(not late, "restore-is-final", inst, "after %s has restored %s from %s it is written again (%s): the value the enclosing collection had is lost, "
+                          "what follows the closing bracket is scanned as if it were somewhere else" % (short(ent["restored_in"]), nm, stack, ", ".join(late)),
+                          site=rs.span)
                 rep.check(okr and saved and restored and paired, "field-class", inst, "RESTORED field is no longer saved when a flow collection opens and restored from "
                           "the same stack when it closes (or has a new writer): it can keep a value set inside a collection after the collection, and the document, end", detail=det)
             elif cls == "RESET_BY":
@@ -322,6 +327,29 @@ def run(tier):
     rep.floor("comparisons between cursor coordinates of known unit", units.check(rep, F), 1)
     stream_start_consumes_nothing_of_its_own(rep, F)
     return rep
+
+
+def restore_is_final(F, owner, nm, rs, restore_blocks, writer_fns):
+    """sites in function rs that write field owner.nm - directly or by calling a function that writes it - on a path after a restore"""
+    out = []
+    after = set()
+    for rb in restore_blocks:
+        after |= cfg.blocks_reachable_from(rs, [rb])
+        t = rs.blocks[rb]["term"]
+        if t["k"] == "call":
+            after.add(rb)          # the restore is a statement of rb: rb's own terminator comes after it
+    after_calls = after
+    after_stmts = after - set(restore_blocks)
+    for w in cfg.field_writes(rs, owner, nm):
+        if w["bb"] in after_stmts and w["bb"] not in restore_blocks:
+            out.append("a write at %s" % (w["stmt"]["sp"]["at"].split(":", 1)[1] if w.get("stmt") else "bb%d" % w["bb"]))
+    for bb, t, ck, fr in rs.calls():
+        if bb in after_calls and ck in writer_fns and ck != rs.key:
+            e = " ".join(cfg.expr_str(cfg.expr_operand(rs, a, 6)) for a in t["args"])
+            if bb in restore_blocks and "::pop(" in e:
+                continue
+            out.append("a call of %s" % short(ck))
+    return sorted(set(out))
 
 
 def stream_start_consumes_nothing_of_its_own(rep, F, rule="stream-start-consumes-like-a-document-start"):
